@@ -95,6 +95,18 @@ SEEDS = {
     "C18_d": ("_incoming4/C18", "C18", ["C18"], "Source.__init__ resets _run_in_flight after start=True has started the loop: stop(); start() at a suspension point of a source constructed with start=True"),
     "C19_d": ("_incoming4/C19", "C19", ["C19"], "get_io_loop consults the default Dask client before `asynchronous`: a blocking default client and a pipeline declared asynchronous=True without a loop"),
     "C20_d": ("_incoming4/C20", "C20", ["C20"], "gather forgets _previous unconditionally when an update finishes: three updates in the gather, the first finishing while the second waits, the third's task finishing first"),
+    "C07_e": ("_incoming5/C07", "C07", ["C07", "C06"], "Mean.on_old subtracts len(old) instead of old.count(): a row holding NaN enters a count/time window and later decays out of it"),
+    "C11_e": ("_incoming5/C11", "C11", ["C11"], "rolling_accumulator takes the time-window cutoff from the incoming batch: an empty batch after data, followed by more data, under a time-based rolling window"),
+    "C13_e": ("_incoming5/C13", "C13", ["C13", "C02"], "rate_limit reserves the slot after the hand-off on an idle line: a consumer that suspends and a second producer emitting during that hand-off"),
+    "C14_e": ("_incoming5/C14", "C14", ["C14"], "latest schedules a wake-up only when none is pending and clears the flag after wait(): an arrival during a busy period, then a further arrival after the backlog has drained"),
+    "C18_e": ("_incoming5/C18", "C18", ["C18"], "Source.start() leaves setting _run_in_flight to the scheduled run: start(); stop(); start() back-to-back before the loop has run the first callback"),
+    "C19_e": ("_incoming5/C19", "C19", ["C19"], "_inform_loop does not percolate to sibling downstreams when told from below: a branched unbound graph and a loop arriving from the bottom of one branch"),
+    "C03_e": ("_incoming5/C03", "C03", ["C03", "C02"], "flatten rebinds instead of accumulating its consumers' awaitables: a batch of three or more elements into an awaitable-returning consumer, an earlier element's consumer finishing last"),
+    "C04_e": ("_incoming5/C04", "C04", ["C04", "C05"], "_emit looks for a counter only in the first metadata dict: a metadata list whose first entry has no 'ref', a consumer that returns an unfinished awaitable"),
+    "C09_e": ("_incoming5/C09", "C09", ["C09"], "poll_kafka re-reads the committed offsets of all partitions when partitions are added: refresh_partitions=True, the topic growing while an old partition has handed-out but uncommitted offsets"),
+    "C15_e": ("_incoming5/C15", "C15", ["C15"], "a sink leaves _global_sinks when its last upstream is removed: disconnect from the only upstream, connect to another stream, drop the reference, collect"),
+    "C17_e": ("_incoming5/C17", "C17", ["C17"], "from_textfile skips the emission when everything before the last delimiter is empty: a poll whose buffer is exactly one bare delimiter (a blank record on its own)"),
+    "C20_e": ("_incoming5/C20", "C20", ["C20", "C16"], "gather resolves its ordering future only on success: one element whose task fails, followed by further elements"),
 }
 
 
@@ -129,13 +141,23 @@ def evaluate(name):
             out = sh("flock /tmp/streamz_suite.lock %s -m pytest -q -p no:cacheprovider --timeout=900 2>&1 | grep -E '^[0-9]+ passed|^FAILED|failed|error' | tail -4" % PY, cwd=repo).stdout.strip()
             lines = out.splitlines()
             return (lines[-1] if lines else ""), [l for l in lines if l.startswith("FAILED")]
-        suite, failed_tests = run_suite()
+        prev = None
+        if (os.environ.get("SEED_EVAL_DEMO_ONLY") or os.environ.get("SEED_EVAL_REUSE_SUITE")) and os.path.exists(os.path.join(V, "seeded", name, "meta.json")):
+            # SEED_EVAL_DEMO_ONLY: only the demonstration is run again (it was edited); suite and check results are those of the
+            # first evaluation.  SEED_EVAL_REUSE_SUITE: the checks are run again as well (they were extended), the suite is not
+            prev = json.load(open(os.path.join(V, "seeded", name, "meta.json")))["what_was_run"]
+            suite, failed_tests = prev["unedited_suite_with_change"], prev["suite_failed_tests"]
+        else:
+            suite, failed_tests = run_suite()
         first_attempt = None
-        if not suite.startswith(BASELINE):
+        if prev is None and not suite.startswith(BASELINE):
             # wall-clock tests of the suite are flaky on a loaded machine: one more attempt, both recorded
             first_attempt = dict(summary=suite, failed=failed_tests)
             suite, failed_tests = run_suite()
         results = {}
+        if prev is not None and os.environ.get("SEED_EVAL_DEMO_ONLY"):
+            results = prev["checks"]
+            checks = []
         for c in checks:
             e2 = dict(os.environ, VERIF_REPO=repo, VERIF_EVIDENCE_DIR=os.path.join(d, "ev"), VERIF_REPLAY_DIR=os.path.join(d, "rp"))
             r = subprocess.run([PY, "-m", "vf.run", c], capture_output=True, text=True, env=e2, cwd=V, timeout=3600)
